@@ -236,7 +236,7 @@ theorem client_px (s : Sys F) (pkt : Sys.Bytes) (now : Nat) :
       unfold Hk.clientFwd
       dsimp only
       split
-      · have p1 := stallProbes_px pkt (Codec.getSrtSequenceNumberS pkt) now i
+      · have p1 := stallProbes_px (fa := (forwardVia (runSelect s now).1 i pkt (Codec.getSrtSequenceNumberS pkt) now).1.failAfter) pkt (Codec.getSrtSequenceNumberS pkt) now i
           (forwardVia (runSelect s now).1 i pkt (Codec.getSrtSequenceNumberS pkt) now).1.links 0
           (forwardVia (runSelect s now).1 i pkt (Codec.getSrtSequenceNumberS pkt) now).1.failNext
         obtain ⟨-, p2⟩ := Hk.stallProbes_pw false none pkt (Codec.getSrtSequenceNumberS pkt) now i
@@ -367,7 +367,7 @@ theorem client_consumed (s : Sys F) (pkt : Sys.Bytes) (now : Nat) (c : Nat)
             < s.failNext.count c
         · obtain ⟨l, l', a1, a2, a3, a4⟩ := hfwd h2
           exact ⟨i, l, l', a1, a2, stallProbes_skip_down _ _ _ _ _ _ _ i l' a3 a4.1.connected, a4⟩
-        · have h3 : (stallProbesGo fa pkt (Codec.getSrtSequenceNumberS pkt) now i
+        · have h3 : (stallProbesGo (forwardVia (runSelect s now).1 i pkt (Codec.getSrtSequenceNumberS pkt) now).1.failAfter pkt (Codec.getSrtSequenceNumberS pkt) now i
               (forwardVia (runSelect s now).1 i pkt (Codec.getSrtSequenceNumberS pkt) now).1.links 0
               (forwardVia (runSelect s now).1 i pkt (Codec.getSrtSequenceNumberS pkt) now).1.failNext).2.2.count c <
               (forwardVia (runSelect s now).1 i pkt (Codec.getSrtSequenceNumberS pkt) now).1.failNext.count c := by
@@ -475,7 +475,8 @@ theorem client_target_fn (s : Sys F) (pkt : Sys.Bytes) (now j : Nat) (l : FLink 
     rw [hpass] at hm
     rw [Hk.handleSrtPacket_some s pkt now j hne hc htgt]
     obtain ⟨-, e2, -, -⟩ := Hk.forwardVia_eq (runSelect s now).1 j pkt (Codec.getSrtSequenceNumberS pkt) now m hm
-    rw [r3] at e2
+    have hfa : (runSelect s now).1.failAfter = s.failAfter := rfl
+    rw [r3, hfa] at e2
     refine ⟨m, hml, ?_⟩
     unfold Hk.clientFwd
     dsimp only
@@ -510,8 +511,8 @@ theorem client_target_fails (s : Sys F) (pkt : Sys.Bytes) (now j : Nat) (l l' : 
           by rw [hc]; exact hrs.1.inFlight, by rw [hc]; exact hrs.1.connected⟩, by rw [hc]; exact hrs.2⟩
   · obtain ⟨m, hml, hle⟩ := client_target_fn s pkt now j l hl htgt
     -- forwarding on `m` and on `l` leave the same fault list
-    have h1 := congrArg (fun x => x.2.2) (SelShell.liveAcct_fwdLink m pkt (Codec.getSrtSequenceNumberS pkt) now s.failNext)
-    have h2 := congrArg (fun x => x.2.2) (SelShell.liveAcct_fwdLink l pkt (Codec.getSrtSequenceNumberS pkt) now s.failNext)
+    have h1 := congrArg (fun x => x.2.2) (SelShell.liveAcct_fwdLink (fa := s.failAfter) m pkt (Codec.getSrtSequenceNumberS pkt) now s.failNext)
+    have h2 := congrArg (fun x => x.2.2) (SelShell.liveAcct_fwdLink (fa := s.failAfter) l pkt (Codec.getSrtSequenceNumberS pkt) now s.failNext)
     dsimp only at h1 h2
     rw [hml, h2] at h1
     rw [← h1] at hle
